@@ -639,16 +639,9 @@ func (g *gen) unit(i int) (string, UnitTruth) {
 	if len(members) > 1 && rapid.IntRange(0, 2).Draw(t, "shuffleMembers") == 0 {
 		members = rapid.Permutation(members).Draw(t, "memberOrder")
 	}
-	prevName := ""
 	for mi, m := range members {
-		name := s.name
-		if !m.ctor {
-			name = s.methods[m.idx].name
-		}
 		// compact layout: the member starts on the line the previous one ends on
-		// (never for two members of the same name: the model keys functions by name and line)
-		sameLine := mi > 0 && name != prevName && rapid.IntRange(0, 7).Draw(t, "memberOnSameLine") == 0
-		prevName = name
+		sameLine := mi > 0 && rapid.IntRange(0, 7).Draw(t, "memberOnSameLine") == 0
 		if mi > 0 && !sameLine {
 			w.S("\n")
 			if rapid.IntRange(0, 2).Draw(t, "blankBetweenMembers") > 0 {
